@@ -107,20 +107,21 @@ def check_C14(tier):
             chk.violation("two random identities share a temp directory", dict(a=json.loads(seen[d]), b=q, dir=d))
         seen[d] = key
     # stability across runs of a task with a joined in-port (end to end, two fresh directories)
-    inst = dict(name="JN", max=2, bufsize=4, procs=[zoo.src("s", zoo.items(3)), zoo.cmd("a", ["in"]), dict(name="ss", kind="substream"),
-                                                    dict(name="cat", kind="cmd", ins=["in"], outs=["out"], joins={"in": " "})],
-                edges=[zoo.E("s.out", "a.in"), zoo.E("a.out", "ss.in"), zoo.E("ss.substream", "cat.in")])
-    rrs = fc.real_runs(inst, [dict(env={}, bufsize=4), dict(env={}, bufsize=4)])
-    tmps = []
-    for rr in rrs:
-        chk.evaluations += 1
-        tmps.append(sorted(e["tmp"] for e in rr.events if e["ev"] == "task.new" and e["proc"] == "cat"))
-    if not tmps[0] or not tmps[1]:
-        chk.undecided.append("join workflow produced no task for 'cat': %s" % rrs[0].stderr[-200:])
-    elif tmps[0] != tmps[1]:
-        msg = "the same join task got different temp directories in two runs: %s vs %s" % (tmps[0], tmps[1])
-        if findings.active("F13"): chk.known_finding("F13", msg)
-        else: chk.violation(msg, dict(instance=inst))
+    for nitems in (3, 0, 1):
+        inst = dict(name="JN", max=2, bufsize=4, procs=[zoo.src("s", zoo.items(nitems)), zoo.cmd("a", ["in"]), dict(name="ss", kind="substream"),
+                                                        dict(name="cat", kind="cmd", ins=["in"], outs=["out"], joins={"in": " "}, arg="echo 'ARGS[{i:in|join: }]' > {o:out}")],
+                    edges=[zoo.E("s.out", "a.in"), zoo.E("a.out", "ss.in"), zoo.E("ss.substream", "cat.in")])
+        rrs = fc.real_runs(inst, [dict(env={}, bufsize=4), dict(env={}, bufsize=4)])
+        tmps = []
+        for rr in rrs:
+            chk.evaluations += 1
+            tmps.append(sorted(e["tmp"] for e in rr.events if e["ev"] == "task.new" and e["proc"] == "cat"))
+        if not tmps[0] or not tmps[1]:
+            chk.undecided.append("join workflow (%d members) produced no task for 'cat': %s" % (nitems, rrs[0].stderr[-200:]))
+        elif tmps[0] != tmps[1]:
+            msg = "the same join task (sub-stream of %d files) got different temp directories in two runs: %s vs %s" % (nitems, tmps[0], tmps[1])
+            if findings.active("F13"): chk.known_finding("F13", msg)
+            else: chk.violation(msg, dict(instance=inst))
     chk.sample(dict(kind="identities", exported_by_tlc=len(ids), collision_pairs_in_transcription=ncoll, real_groups_sharing_a_dir=f4, examples=ids[:3]))
     chk.extra["exhaustive"] = True
     return chk.finish()
